@@ -249,7 +249,15 @@ metadata:
 `
 	res = strings.Replace(res, "SUBJECTS", pickS(r, []string{"[foo]", "[{kind: 1, name: sa}]", "[{kind: ServiceAccount, name: sa, namespace: default}]", "{}", "[[]]", "[null]", "[{kind: ServiceAccount}]"}), 1)
 	var k string
-	switch r.Intn(12) {
+	switch r.Intn(15) {
+	case 12:
+		// a replacement by VALUE (no source selector) whose targets are missing, null or empty
+		k = "resources: [res.yaml]\nreplacements:\n- sourceValue: " + pickS(r, []string{"x", "\"\"", "1"}) + "\n" +
+			pickS(r, []string{"", "  targets: null\n", "  targets: []\n", "  targets: [null]\n", "  targets: {}\n", "  source: null\n  targets: []\n"})
+	case 13, 14:
+		// CRD definition files: types that refer to themselves or to each other (recursive types are ordinary OpenAPI), references
+		// to types that do not exist, definitions without a schema
+		k = "resources: [res.yaml]\ncrds: [crd.json]\n"
 	case 0:
 		k = "resources: [res.yaml]\nimages:\n- name: \"" + pickS(r, []string{"a(", "*", "[", "nginx", "+"}) + "\"\n  newTag: x\n"
 	case 1, 10, 11:
@@ -274,6 +282,17 @@ metadata:
 		k = "resources: [res.yaml]\nconfigurations: [cfg.yaml]\n"
 	}
 	files := map[string]string{"/w/res.yaml": res, "/w/kustomization.yaml": k}
+	k8sType := func(extra string) string {
+		return `{"Schema": {"properties": {"apiVersion": {"type": "string"}, "kind": {"type": "string"}, "metadata": {"type": "object"}` + extra + `}}}`
+	}
+	files["/w/crd.json"] = pickS(r, []string{
+		`{"example.com/v1.Tree": ` + k8sType(`, "spec": {"$ref": "example.com/v1.Node"}`) + `, "example.com/v1.Node": {"Schema": {"properties": {"value": {"type": "string"}, "child": {"$ref": "example.com/v1.Node"}}}}}`,
+		`{"example.com/v1.Tree": ` + k8sType(`, "parent": {"$ref": "example.com/v1.Tree"}`) + `}`,
+		`{"example.com/v1.A": ` + k8sType(`, "b": {"$ref": "example.com/v1.B"}`) + `, "example.com/v1.B": {"Schema": {"properties": {"a": {"$ref": "example.com/v1.A"}}}}}`,
+		`{"example.com/v1.Tree": ` + k8sType(`, "spec": {"$ref": "example.com/v1.Missing"}`) + `}`,
+		`{"example.com/v1.Tree": {}}`, `{"example.com/v1.Tree": null}`, `{"example.com/v1.Tree": ` + k8sType(`, "spec": {"$ref": 1}`) + `}`,
+		`{"example.com/v1.Tree": ` + k8sType(`, "ref": {"x-kubernetes-object-ref-api-version": "v1", "x-kubernetes-object-ref-kind": "ConfigMap", "$ref": "example.com/v1.Tree"}`) + `}`,
+	})
 	files["/w/schema.json"] = pickS(r, []string{"{", "{}", `{"definitions": {"x": {"x-kubernetes-group-version-kind": [{"kind": "Deployment", "group": "apps"}]}}}`, "definitions: 1"})
 	files["/w/cfg.yaml"] = pickS(r, []string{"nameReference:\n- kind: ConfigMap\n  fieldSpecs:\n  - path: spec/x\n", "images: 1\n", "namePrefix:\n- path: metadata/name/x\n", "commonLabels:\n- path: spec/template/spec/containers[]/name\n  create: true\n"})
 	return files
